@@ -261,7 +261,12 @@ func (dec *Decoder) DiscardLine() {
 		var text string
 		dec.Text(&text)
 		if !dec.CRLF() {
-			return
+			// Not the end of the line yet (e.g. a bare CR): what follows
+			// still belongs to the line being discarded
+			if _, err := dec.r.ReadByte(); err != nil {
+				return
+			}
+			continue
 		}
 		size, ok := trailingNonSyncLiteral(text)
 		if !ok || dec.side != ConnSideServer {
